@@ -297,7 +297,9 @@ func Await(ch <-chan struct{}, watchdog time.Duration) (Outcome, []G) {
 		}
 		span.Observe(gs)
 		if time.Now().After(deadline) {
-			return span.Classify(), Snapshot()
+			if o, over := span.AtDeadline(&deadline, watchdog); over {
+				return o, Snapshot()
+			}
 		}
 		if wait < 20*time.Millisecond {
 			wait *= 2
@@ -330,6 +332,8 @@ type Span struct {
 	cpu0 time.Duration
 	busy int // snapshots in which a library goroutine was running/runnable
 	seen int
+	// extended: the deadline has been moved out once (AtDeadline)
+	extended bool
 }
 
 func StartSpan() *Span { return &Span{t0: time.Now(), cpu0: cpuTime()} }
@@ -343,6 +347,23 @@ func (s *Span) Observe(gs []G) {
 			return
 		}
 	}
+}
+
+// AtDeadline is called when a wait's watchdog period is over. A wait that looks
+// like a livelock at that moment (Classify: Spinning) is not called one yet: a
+// long but legitimate request - a 4000-component walk under the race detector
+// on a machine that runs three other sweeps - looks exactly the same for 25
+// seconds. The deadline is moved out once, by ten more periods; only a wait
+// that is still spinning, its condition still false, at the end of those is
+// reported as Spinning. It returns (outcome, true) when the wait is over.
+func (s *Span) AtDeadline(deadline *time.Time, watchdog time.Duration) (Outcome, bool) {
+	o := s.Classify()
+	if o == Spinning && !s.extended {
+		s.extended = true
+		*deadline = time.Now().Add(10 * watchdog)
+		return CondMet, false
+	}
+	return o, true
 }
 
 // Classify decides what a watchdog expiry means. A starved process shows
@@ -384,7 +405,9 @@ func WaitUntil(cond func() bool, watchdog time.Duration) (Outcome, []G) {
 			span.Observe(gs)
 		}
 		if time.Now().After(deadline) {
-			return span.Classify(), Snapshot()
+			if o, over := span.AtDeadline(&deadline, watchdog); over {
+				return o, Snapshot()
+			}
 		}
 		time.Sleep(200 * time.Microsecond)
 	}
